@@ -4,7 +4,7 @@ CONSTANTS
   Builders = {"B1", "B2", "B3"}
   Fields = {"redir", "compress", "follow", "timeout", "maxhdr", "rto", "cto", "certs", "hosts", "charset"}
   Vals = {0, 1, 2}
-  HNames = {"x-a", "accept-encoding", "accept", "user-agent"}
+  HNames = {"x-a", "accept-encoding", "accept", "user-agent", "authorization", "cookie"}
   HVals = {"1", "2"}
   Depth = 12
 CONSTRAINT Bound
